@@ -23,7 +23,7 @@ func (c18) Runs(tier string) int64 {
 	if tier == "thorough" {
 		return 8000000
 	}
-	return 40000
+	return 150000
 }
 func (c18) Prefix(string, int64) []uint64 { return nil }
 
